@@ -317,6 +317,7 @@ def _relational(okspec, pre_nonan=False, pre_nonzero=False):
     return build
 
 
+row("nextafter", "BB", "B", types=FLOAT_TYPES, prop="C02")(_relational("nextafterok"))
 row("min", "BB", "B", types=FLOAT_TYPES, prop="C02")(_relational("minok", pre_nonan=True))
 row("max", "BB", "B", types=FLOAT_TYPES, prop="C02")(_relational("maxok", pre_nonan=True))
 row("sign", "B", "B", types=FLOAT_TYPES, prop="C02")(_relational("signok"))
